@@ -40,7 +40,9 @@ InView(s, e, L2) == Splice(OldSeq(s, e), ViewA(s, e), ViewB(s, e), L2)
 
 (* the abstract result the request denotes, by Python container semantics   *)
 Expected(s, e) ==
-  CASE e.form = "slice" /\ e.isView -> InView(s, e, PutSlice(ViewL(s, e), 0, e.start, e.stop, e.newS))
+  CASE e.form = "one" /\ e.newS = <<>> -> OldSeq(s, e)   \* the new element has no abstract value (unparsable code):
+                                                         \* no result is denoted, the refusal clauses judge the event
+    [] e.form = "slice" /\ e.isView -> InView(s, e, PutSlice(ViewL(s, e), 0, e.start, e.stop, e.newS))
     [] e.form = "one" /\ e.isView   -> InView(s, e, PutOne(ViewL(s, e), 0, e.idx, e.newS[1]))
     [] e.form = "del" /\ e.isView   -> InView(s, e, DelOne(ViewL(s, e), 0, e.idx))
     [] e.form = "slice" -> PutSlice(OldSeq(s, e), Lo(s, e), e.start, e.stop, e.newS)
